@@ -6,6 +6,8 @@ CONSTANTS
   LeafChoices <- ExhLeafChoices
   Universe = "sigs"
   TypeDepth0 = 0
+  RichArgs = FALSE
+  MaxItems = 3
   MaxArgs = 2
   Target = 2
   MinDecls = 1
